@@ -233,6 +233,11 @@ def parse_pkt(P, ctx, cur, path):
             f.stack.append((fstart, names, P['name']))
             raise
         i += 1
+    for fname, node in fields:
+        d = node.get('desc')
+        if d and d['k'] == 'autolength':
+            # a freshly parsed packet is enabled: the attribute reads the current length of the tracked field
+            vals[fname] = len(vals[d['of']])
     return PV(P['name'], vals), cur
 
 
